@@ -205,6 +205,11 @@ def instVal {α} (tl : TL) (z : α) (neg : α → α) (prim : String → α → 
         (match inSig tl i 3 with | some s => sigVal z prim σ s | none => z)
     | none => z
 
+/-- the arity domain of a module (audit finding 1 / known finding D33): every combinational instance has its connected input pins
+at pin indices 0..3 — `instVal` reads these four only, as the real simulator does -/
+def vArityB (tl : TL) (stmts : List Stmt) : Bool :=
+  (vInsts stmts).all fun i => isSeqKind i.ty || (inConn tl i).all fun c => c.2.1 < 4
+
 /-- `σ` is a model of the module under the assignment `a` -/
 def VModel {α} (tl : TL) (ports : List String) (stmts : List Stmt) (z : α) (neg : α → α) (prim : String → α → α → α → α → α)
     (a : Nat → α) (σ : String → α) : Prop :=
